@@ -16,7 +16,7 @@ try:
         futs = {ex.submit(driver.run_unit, u, scratch, a.t, a.c): u for u in sel}
         for f in cf.as_completed(futs):
             u = futs[f]; r = f.result()
-            fails = [o for o in r["obligations"] if o["status"] != "SUCCESS"]
+            fails = [o for o in r["obligations"] if o["status"] == "FAILURE"]
             print("%-34s %-9s ob=%-5d fail=%-3d %6.1fs %s" % (u.name, r["status"], len(r["obligations"]), len(fails), r["wall_s"], r["reason"][:300].replace("\n", " ")), flush=True)
             for o in fails[:4]:
                 print("      FAIL %s [%s:%d] %s %s" % (o["name"], o["file"], o["line"], o["desc"][:110], o["tags"]), flush=True)
